@@ -35,6 +35,10 @@ func Wrap(block cipher.Block, cek []byte) ([]byte, error) {
 	if len(cek)%8 != 0 {
 		return nil, errors.New("cek must be in 8-byte blocks")
 	}
+	// RFC-3394 section 2: the key data must be at least two 64-bit blocks
+	if len(cek) < 16 {
+		return nil, errors.New("cek must be at least 16 bytes")
+	}
 
 	// Initialize variables
 	a := make([]byte, 8)
@@ -76,6 +80,11 @@ func Wrap(block cipher.Block, cek []byte) ([]byte, error) {
 // Unwrap decrypts the provided cipher text with the given AES cipher (and corresponding key), using the AES Key Wrap algorithm (RFC-3394).
 // The decrypted cipher text is verified using the default IV and will return an error if validation fails.
 func Unwrap(block cipher.Block, cipherText []byte) ([]byte, error) {
+	// A wrapped key is the 8-byte integrity check value followed by at least two 64-bit blocks (RFC-3394 section 2)
+	if len(cipherText) < 24 || len(cipherText)%8 != 0 {
+		return nil, errors.New("wrapped key must be at least 24 bytes and in 8-byte blocks")
+	}
+
 	// Initialize variables
 	a := make([]byte, 8)
 	n := (len(cipherText) / 8) - 1
